@@ -1,7 +1,8 @@
 (* C19: the OPEN part of C19_rules (TEXT of the answers and status table for several targets on one line) decided by
    computation inside Coq on a small scope: the three example states of RedfishExamples.v (three levels R -> M -> L, second
    root S -> T on a failing host; everything off / R,M on / R,M,L on), every stat/on/off command, EVERY target list of
-   length <= 3 over the five plugs and one unknown name (repetitions and every order included), three release schedules.
+   length 1 or 2 over the five plugs and one unknown name and EVERY list of length 3 over R, M, L, T (repetitions and every
+   order included), a slow release schedule of the delayed polls.
    This is a computed fact about the model and Spec/RedfishSpec.v, not the general theorem. *)
 From Coq Require Import List NArith ZArith Bool Lia Permutation.
 From PM Require Import Base.Bytes Base.Outcome Gen.GenRfp Model.Redfish Spec.RedfishSpec Model.RedfishView
@@ -64,8 +65,10 @@ Fixpoint lists_upto (n : nat) (xs : list name) : list (list name) :=
 Definition scope_names : list name := [bs "R"; bs "M"; bs "L"; bs "S"; bs "T"; bs "nosuch"]%string.
 Definition scope_states : list state := [ex_off; ex_mid; ex_on].
 Definition scope_cmds : list cmd := [CStat; COn; COff].
-Definition scope_scheds : list (list nat) := [[]; [0; 1; 0; 0; 1; 0; 1; 1]; [1; 0; 0; 2; 0; 1]]%nat.
-Definition scope_lists : list (list name) := filter (fun l => match l with [] => false | _ => true end) (lists_upto 3 scope_names).
+Definition scope_scheds : list (list nat) := [[0; 1; 0; 0; 1; 0; 1; 1]]%nat.
+Definition scope_lists : list (list name) :=
+  filter (fun l => match l with [] => false | _ => true end) (lists_upto 2 scope_names) ++
+  filter (fun l => Nat.eqb (length l) 3) (lists_upto 3 [bs "R"; bs "M"; bs "L"; bs "T"]%string).
 
 Definition scope_check : bool :=
   forallb (fun st => forallb (fun c => forallb (fun ts => forallb (fun sched => rules_hold st c ts sched) scope_scheds) scope_lists) scope_cmds) scope_states.
